@@ -1,7 +1,7 @@
 (* C08/Examples.v — non-vacuity: concrete values through the models. *)
 From Coq Require Import List NArith ZArith Bool Lia.
 From Common Require Import Bytes Outcome.
-From C08 Require Import Model ModelCD ModelLL.
+From C08 Require Import Model ModelCD ModelLL ModelSub.
 Import ListNotations.
 Local Open Scope N_scope.
 
@@ -92,4 +92,42 @@ Proof. vm_compute. reflexivity. Qed.
 
 (* extension records needed but the table kind unknown: refused *)
 Example ll_ext_unknown_refused : M_ll_encode ll_big 0 = Panic.
+Proof. vm_compute. reflexivity. Qed.
+
+(* ---- value records and subtables ---- *)
+Definition vr1 : option vrec :=
+  Some {| v_xp := 0; v_yp := (-5); v_xa := 7; v_ya := 0; v_xpd := 0; v_ypd := 0; v_xad := 9; v_yad := 0 |}.
+Example vr_own : M_vr_format vr1 = 70 /\ M_vr_encode 70 vr1 = [255;251; 0;7; 0;9] /\ M_vr_encode_len 70 = 6.
+Proof. vm_compute. repeat split. Qed.
+Example vr_hyps : vr_ok vr1 /\ vr_covers 70 vr1 /\ vr_covers 255 None.
+Proof. cbn. repeat split; try lia; intros; try reflexivity; congruence. Qed.
+
+Example gsub12_example :
+  M_gsub12_encode (S_cov_table [3; 4; 5]) [7; 8; 9] =
+    Ok [0;2; 0;12; 0;3; 0;7; 0;8; 0;9;  0;1; 0;3; 0;3; 0;4; 0;5] /\
+  M_gsub12_read [0;2; 0;12; 0;3; 0;7; 0;8; 0;9;  0;1; 0;3; 0;3; 0;4; 0;5] 0 =
+    Ok (S_cov_pairs [3; 4; 5], [7; 8; 9]).
+Proof. vm_compute. split; reflexivity. Qed.
+
+(* reader pruning: two substitutes for three covered glyphs *)
+Example gsub12_pruned :
+  M_gsub12_read [0;2; 0;10; 0;2; 0;7; 0;8;  0;1; 0;3; 0;3; 0;4; 0;5] 0 =
+    Ok (S_cov_pairs [3; 4], [7; 8]).
+Proof. vm_compute. reflexivity. Qed.
+
+Example gsub21_example :
+  exists b, M_gsubseq_encode (S_cov_table [3; 4]) [[1; 2]; [5]] = Ok b /\
+            M_gsubseq_read b 0 = Ok (S_cov_pairs [3; 4], [[1; 2]; [5]]) /\
+            M_gsubseq_len (S_cov_table [3; 4]) [[1; 2]; [5]] = Ok (lenN b).
+Proof. eexists. vm_compute. repeat split. Qed.
+
+(* GPOS 1.2: nil next to a non-zero record comes back as the zero record *)
+Example gpos12_example :
+  exists b, M_gpos12_encode (S_cov_table [3; 4]) [None; vr1] = Ok b /\
+            M_gpos12_read b 0 = Ok (S_cov_pairs [3; 4], [Some vr_zero; vr1]).
+Proof. eexists. vm_compute. split; reflexivity. Qed.
+
+(* the repaired defect: 32765 substitutes put the coverage table beyond 65535 *)
+Example gsub12_overflow_refused :
+  M_gsub12_encode (S_cov_table [1]) (repeat 1 (N.to_nat 32765)) = Panic.
 Proof. vm_compute. reflexivity. Qed.
